@@ -424,6 +424,66 @@ func runCheck(repo, verif, prop string, thorough, verbose, writeEvidence, update
 			return 2
 		}
 	}
+	// Vacuity guard (every tier): an obligation discharged at a program point that the encoding itself makes unreachable
+	// proves nothing. Every distinct point of a discharged contract obligation gets a reachability query; a point that is
+	// unreachable now and was not on the pinned tree (ledger/vacuous_<prop>.json) turns its obligations into failures.
+	vacBase := map[string]bool{}
+	vacPath := filepath.Join(verif, "ledger", "vacuous_"+prop+".json")
+	if data, err := os.ReadFile(vacPath); err == nil {
+		var ids []string
+		json.Unmarshal(data, &ids)
+		for _, id := range ids {
+			vacBase[id] = true
+		}
+	}
+	var vacNow, vacNew []string
+	{
+		type pt struct {
+			prel  *Prelude
+			reach string
+			nline int
+		}
+		points := map[pt]*Oblig{}
+		var queries []*Oblig
+		guarded := append([]*Oblig{}, run.obls...)
+		if sweep != nil {
+			guarded = append(guarded, sweep.claimed...)
+		}
+		for _, o := range guarded {
+			if o.prel == nil || o.Reach == "true" || o.Reach == "" || o.Result != "unsat" || o.Solver == "trivial" || o.Kind == "lemma" || o.Kind == "fresh" {
+				continue
+			}
+			k := pt{o.prel, o.Reach, o.nline}
+			if points[k] == nil {
+				q := &Oblig{ID: "reach:" + o.ID, Kind: "canary", Reach: o.Reach, Formula: "false", prel: o.prel, nline: o.nline, noRetry: true}
+				points[k] = q
+				queries = append(queries, q)
+			}
+		}
+		solveAll(queries, wd, timeout, false, 12)
+		for _, o := range guarded {
+			if o.prel == nil || o.Result != "unsat" {
+				continue
+			}
+			if q := points[pt{o.prel, o.Reach, o.nline}]; q != nil && q.Result == "unsat" {
+				vacNow = append(vacNow, o.ID)
+				if !vacBase[o.ID] && !updateLedger {
+					vacNew = append(vacNew, o.ID)
+					o.Result = "vacuous"
+					o.Model = "the program point of this obligation is unreachable under the assumptions in force there (contradictory contract assumptions, or code that became dead): the obligation holds vacuously and cannot be claimed"
+				}
+			}
+		}
+		sort.Strings(vacNow)
+		if updateLedger {
+			os.MkdirAll(filepath.Join(verif, "ledger"), 0o755)
+			data, _ := json.MarshalIndent(vacNow, "", " ")
+			if len(vacNow) == 0 {
+				data = []byte("[]")
+			}
+			os.WriteFile(vacPath, append(data, '\n'), 0o644)
+		}
+	}
 	nKnown := 0
 	for _, o := range claimed {
 		solverSecs += o.Time
@@ -569,6 +629,8 @@ func runCheck(repo, verif, prop string, thorough, verbose, writeEvidence, update
 		cov["obligation_points_unreachable"] = unreachable
 		cov["assumption_audit_bounded_not_proof"] = audit
 	}
+	cov["vacuous_obligations_on_pinned_tree_not_claimed_as_meaningful"] = vacNow
+	cov["vacuous_obligations_new"] = vacNew
 	ev := Evidence{PropertyID: prop, Tier: tier, Seed: seed, Level: "proof", Coverage: cov, Assumptions: propAssumptions(verif, prop), WallS: round3(wall), Violations: violations}
 	if writeEvidence {
 		os.MkdirAll(filepath.Join(verif, "evidence"), 0o755)
